@@ -12,7 +12,9 @@ Case syntax (one history per line):
         all IPv4 lists first, then per v6 profile its IA_NA list before its PD list
   res <profiles as for reg, pools of one family disjoint> ; ops      (pkg/dhcp harness, exported API only)
         Y<sid>,<pf>,<override>,<vrf>,<addr|->   Z<sid>,<pf>,<naov>,<pdov>,<vrf>,<addr|->,<pfx|->   A.. L.. I..
-        y<sid> / z<sid>: ResolveV4 / ResolveV6 again with the context the session's last Y / Z left behind
+        X<sid>,<pf|0>,<vrf>,<ipv4_address>,<pool>  /  W<sid>,<pf6|0>,<vrf>,<ipv6_address>,<ipv6_prefix>,<iana_pool>,<pd_pool>:
+            context built by allocator.NewContext from AAA attributes (attr: - absent, ! not a string, junk, <addr>, <addr>/<len>, pool name)
+        y<sid> / z<sid>: ResolveV4 / ResolveV6 again with the context the session's last Y / Z / X / W left behind
         n<sid> / m<sid>: the caller clears the IPv4 address / the IPv6 address and prefix in that context
   addr: 4:<dec> | 6:<dec> | nil | bad      pfx: nil | <addr>/<ones>:<bits> | <addr>/mnil | <addr>/mbad
 """
@@ -400,6 +402,37 @@ def gen_registry(rng, resolve=False, maxops=45):
         fam = rng.choice(["4", "4", "n", "d", "d"])
         if resolve and rng.random() < 0.22:
             ops.append(rng.choice(["y%d", "y%d", "z%d", "z%d", "n%d", "m%d"]) % s)
+            continue
+        if resolve and rng.random() < 0.18:
+            # context built by allocator.NewContext from AAA attributes
+            def addr_attr(f):
+                r = rng.random()
+                if r < 0.18:
+                    return "-"
+                if r < 0.26:
+                    return "!"
+                if r < 0.36:
+                    return "junk"
+                if r < 0.44:       # the other family's literal in this attribute
+                    return atok(6, (0x20010db8 << 96) + rng.randint(1, 40)) if f == "4" else atok(4, 0x0a000000 + rng.randint(1, 300))
+                if keys[f]:
+                    _, first, last = rng.choice(keys[f])
+                    return atok(4 if f == "4" else 6, rng.randint(max(0, first - 1), last + 1))
+                return atok(4 if f == "4" else 6, rng.getrandbits(31))
+            name_attr = lambda: rng.choice(["-", "-", "-", "!", "junk", "1", "2", "3", "6", "0"])
+            pfa = rng.choice(profiles + [0])
+            if rng.random() < 0.5:
+                ops.append("X%d,%d,%d,%s,%s" % (s, pfa, rng.choice([0, 0, 1, 2]), addr_attr("4"), name_attr()))
+            else:
+                pd = arg("d")
+                r = rng.random()
+                if r < 0.35 or pd == "nil" or pd.startswith("bad") or not pd.split("/")[1].endswith(":128"):
+                    pd = rng.choice(["-", "-", "!", "junk"])
+                else:
+                    pd = pd.split("/")[0] + "/" + pd.split("/")[1].split(":")[0]
+                    if rng.random() < 0.15:
+                        pd = "%s/%d" % (atok(4, 0x0a000000), 24)     # an IPv4 CIDR as ipv6_prefix
+                ops.append("W%d,%d,%d,%s,%s,%s,%s" % (s, pfa, rng.choice([0, 0, 1, 2]), addr_attr("n"), pd, name_attr(), name_attr()))
             continue
         if resolve:
             if k < 0.25:
@@ -860,10 +893,10 @@ def monitor_res(head, ops, outs):
             return None
         c = op[0]
         got = []            # (fam, addr, sid)
-        if c in "Yy" and o.startswith("r"):
+        if c in "YyX" and o.startswith("r"):
             sid = op[1:].split(",")[0]
             got.append(("4", parse_addr(o[1:].split("@")[0]), sid))
-        elif c in "Zz" and o.startswith("ok;"):
+        elif c in "ZzW" and o.startswith("ok;"):
             sid = op[1:].split(",")[0]
             fl = dict(x.split("=", 1) for x in o.split(";")[1:] if "=" in x)
             if fl.get("na", "-") != "-":
@@ -942,7 +975,7 @@ def classify(case, impl, model):
         return "P", "op %d %s: answer %s is not admissible (%s)" % (k, op, a, m.split(":", 1)[1])
     if k < len(ops) and op[0] in "RLPICV" and kind(head) in ("pool", "pd"):
         return "P", "op %d %s: returned %s, the proved model says %s" % (k, op, a, m)
-    if k < len(ops) and op[0] in "YZyz":
+    if k < len(ops) and op[0] in "YZyzXW":
         # what was offered (nil / address / prefix) is property-level; pool names and context fields alone are not
         # (the VRF/order monitor above has already accepted the pool)
         def offered(t):
